@@ -400,6 +400,8 @@ func VPH_mainSelection() {
 		{[]string{"--include", "/refs/.*/a.?/"}, true, 1, "refs/.*/a.?"},
 		{[]string{"--exclude", "@tags"}, false, 0, "refs/tags/"},
 		{[]string{"--exclude", "/refs/heads/a|refs/tags/b/"}, false, 1, "refs/heads/a|refs/tags/b"},
+		{[]string{"--branches=false"}, false, 0, "refs/heads"}, // "=false" inverts the polarity of that occurrence only
+		{[]string{"--no-tags=false"}, true, 0, "refs/tags"},
 	}
 	n := vp_Choice("nopts", vp_Param("maxopts")+1)
 	var opts []sel
